@@ -90,6 +90,7 @@ type Exec struct {
 	Calls         []string // log of notable call events on this path (mint/burn/send sites etc.)
 	rowInvDone    map[string]bool
 	topTags       map[string]bool
+	noFork        bool
 	rowGuard      *smt.Term
 	opaqueSeen    map[string]bool     // lazy collections read opaquely during the current spec evaluation
 	opaqueRedo    map[string][]func() // assumptions to re-evaluate when a collection is revealed
@@ -168,6 +169,9 @@ func (ex *Exec) branch(c *smt.Term) bool {
 			return false
 		}
 	}
+	if ex.noFork {
+		panic(quantSkip{})
+	}
 	if ex.choose(2) == 0 {
 		ex.assume(c)
 		return true
@@ -175,6 +179,10 @@ func (ex *Exec) branch(c *smt.Term) bool {
 	ex.assume(neg)
 	return false
 }
+
+// quantSkip: a specification evaluated under a bound variable wanted to fork; the quantified
+// form of that clause is not generated (its instances still are).
+type quantSkip struct{}
 
 func (ex *Exec) freshName(hint string) string {
 	ex.fresh++
@@ -1399,8 +1407,35 @@ func (ex *Exec) equal(x, y Val) *smt.Term {
 			return ex.equal(y, x)
 		}
 	}
+	// two collections (specifications only: Go has no slice equality): same length and equal
+	// elements; a symbolic collection is materialised (bounded)
+	if isSliceVal(x) && isSliceVal(y) {
+		a, ok1 := ex.forceSliceVal(x)
+		b, ok2 := ex.forceSliceVal(y)
+		if ok1 && ok2 {
+			if a.Len != b.Len {
+				return smt.False
+			}
+			var cs []*smt.Term
+			for i := 0; i < a.Len; i++ {
+				cs = append(cs, ex.equal(ex.force(a.Arr.Elems[a.Off+i].V), ex.force(b.Arr.Elems[b.Off+i].V)))
+			}
+			return smt.And(cs...)
+		}
+	}
 	ex.abort("unsupported equality between %T and %T", x, y)
 	return nil
+}
+
+func isSliceVal(v Val) bool {
+	switch x := v.(type) {
+	case *SliceV:
+		return true
+	case *LazyV:
+		_, ok := x.T.Underlying().(*types.Slice)
+		return ok
+	}
+	return false
 }
 
 // ---- maps (executor-level association lists with forking key comparison) -------------------
